@@ -1,5 +1,6 @@
 import MetadorModel.Py.DrvLib
 import MetadorModel.Model.Record
+import MetadorModel.Model.UBlock
 /-!
 Driver for the record model (C02, C03). Names travel hex-encoded.
 
@@ -7,6 +8,10 @@ Operations (one per line):
 * `open <p|m> <r|r+|a|w|w-|x> n <name>`  /  `open <p|m> <mode> l <file>*`
 * `write <k>`, `read`, `create`, `commit`, `discard`, `close <0|1>`, `merge <name>`, `delete <name>`
 * `find <name> <file>*` (find_files on a listing), `list <file>*` (list_records), `valid <name>`
+* `ubtext <hex of the whole file|->` — the framing part of `IH5UserBlock.load` (`UBlock.loadText`):
+  `text <hex of the text handed to json.loads|->`, or `err ValueError` (no magic / three parts; size
+  line not an int), `err AssertionError` (re-read with the stated size failed), `err outside`
+  (non-ASCII byte in the probed region: not modelled)
 
 Answer of an API call:
 `<outcome> | h=<closed | name:idx:c/u,... rw=0/1 allow=0/1 mf=+ or -> | ls=<name:c/u/m,...> | must=<..> may=<..> | view=<ids>`
@@ -167,6 +172,17 @@ def step' (s : DS) : List String → DS × String
   | ["infer", f] =>
     match unhexName f with
     | some f => (s, "name " ++ hexName (inferName f))
+    | none => (s, "bad-op")
+  | ["ubtext", hx] =>
+    match (if hx == "-" then some [] else (unhex hx.toList).map (fun l => l.map Char.ofNat)) with
+    | some bytes =>
+      (s, match UBlock.loadText bytes with
+          | .ok (_, txt) => "text " ++ (if txt.isEmpty then "-" else hex (txt.map Char.toNat))
+          | .error .nonAscii => "err outside"
+          | .error .notIH5 => "err ValueError"
+          | .error .badSize => "err ValueError"
+          | .error .reread => "err AssertionError"
+          | .error .nonCanonical => "err outside")
     | none => (s, "bad-op")
   | _ => (s, "bad-op")
 
